@@ -851,6 +851,10 @@ class UsersDictionary(utils.IterableMap):
 
     def setUser(self, user, flush=True):
         """Sets a user (given its id) to the IrcUser given it."""
+        if '\n' in user.name or '\r' in user.name:
+            # The database is line-oriented; such a name would be read back as
+            # additional lines of the record (e.g. a capability line).
+            raise ValueError('User names cannot contain line breaks.')
         self.nextId = max(self.nextId, user.id)
         try:
             if self.getUserId(user.name) != user.id:
